@@ -223,6 +223,7 @@ class FrameQueueFrag(FrameQueue):
             if (
                 # only while a message is being assembled (not after its last fragment)
                 self._frags.header.message_type in (MSG_FRAG_FIRST, MSG_FRAG_MORE)
+                and frame.header.from_node == self._frags.header.from_node
                 and frame.header.to_node == self._frags.header.to_node
                 and frame.header.frame_id == self._frags.header.frame_id
             ):
